@@ -976,4 +976,115 @@ theorem ops_exact_when_representable (a b c : Nat) (ha : FinBits a) (hb : FinBit
   · have := ((div_correct a b n1 n2 m1 m2 e1 e2 h1 h2 (nonzero_of_isZeroBits b n2 m2 e2 h2 hz)).1 (by rw [h, r1]; exact r2)).2
     rw [h, r1] at this; exact this
 
+/-! ## `fmod` is exact -/
+
+/-- C's `trunc` on a rational -/
+def truncQ (q : ℚ) : ℤ := if 0 ≤ q then ⌊q⌋ else ⌈q⌉
+
+theorem truncQ_signed (s t : Bool) (X Y : Nat) (hY : 0 < Y) :
+    truncQ (sgnQ s * (X : ℚ) / (sgnQ t * (Y : ℚ))) = (if s != t then -((X / Y : Nat) : ℤ) else ((X / Y : Nat) : ℤ)) := by
+  have hYq : (0 : ℚ) < Y := by exact_mod_cast hY
+  have hq0 : (0 : ℚ) ≤ (X : ℚ) / Y := div_nonneg (by positivity) hYq.le
+  have hfl : ⌊(X : ℚ) / Y⌋ = ((X / Y : Nat) : ℤ) := by rw [Rat.floor_natCast_div_natCast]; rfl
+  have hpos : truncQ ((X : ℚ) / Y) = ((X / Y : Nat) : ℤ) := by unfold truncQ; rw [if_pos hq0, hfl]
+  have hneg : truncQ (-((X : ℚ) / Y)) = -((X / Y : Nat) : ℤ) := by
+    unfold truncQ
+    by_cases hz : (X : ℚ) / Y = 0
+    · rw [hz, neg_zero, if_pos (le_refl _)]
+      have : ((X / Y : Nat) : ℤ) = 0 := by rw [← hfl, hz]; simp
+      rw [this]; simp
+    · have : ¬ (0 : ℚ) ≤ -((X : ℚ) / Y) := by
+        have : (0 : ℚ) < (X : ℚ) / Y := lt_of_le_of_ne hq0 (Ne.symm hz)
+        linarith
+      rw [if_neg this, Int.ceil_neg, hfl]
+  cases s <;> cases t <;> simp only [sgnQ, if_true, Bool.false_eq_true, if_false, one_mul, neg_one_mul, bne_self_eq_false,
+    Bool.true_bne, Bool.false_bne, Bool.not_false, neg_div, div_neg, neg_neg]
+  · exact hpos
+  · exact hneg
+  · exact hneg
+  · exact hpos
+
+/-- ★ `(% a b)` on two finite numbers, b ≠ 0: C `fmod`, **exactly** a − b·trunc(a / b) (no rounding: the result is a double) -/
+theorem fmod_exact (a b : Nat) (nx ny : Bool) (mx my : Nat) (ex ey : ℤ)
+    (ha : decode a = .fin nx mx ex) (hb : decode b = .fin ny my ey) (hmy : my ≠ 0) :
+    FinBits (fmod a b) ∧ valQ (fmod a b) = valQ a - valQ b * ((truncQ (valQ a / valQ b) : ℤ) : ℚ) := by
+  obtain ⟨hmx53, hex1, _⟩ := decode_fin_bounds a nx mx ex ha
+  obtain ⟨hmy53, hey1, _⟩ := decode_fin_bounds b ny my ey hb
+  have hva := valQ_of_decode a nx mx ex ha
+  have hvb := valQ_of_decode b ny my ey hb
+  by_cases hmx : mx = 0
+  · have hf : fmod a b = a := by unfold fmod; rw [ha, hb]; simp only []; rw [if_neg hmy, if_pos hmx]
+    rw [hf]
+    refine ⟨⟨nx, mx, ex, ha⟩, ?_⟩
+    have h0 : valQ a = 0 := by rw [hva, hmx]; simp
+    rw [h0]; simp [truncQ]
+  · set e := min ex ey with he
+    obtain ⟨jx, hjx⟩ := Int.eq_ofNat_of_zero_le (show 0 ≤ ex - e by omega)
+    obtain ⟨jy, hjy⟩ := Int.eq_ofNat_of_zero_le (show 0 ≤ ey - e by omega)
+    have hf : fmod a b = roundSigned nx (dyNum (mx * 2 ^ jx % (my * 2 ^ jy)) e) (dyDen e) := by
+      unfold fmod; rw [ha, hb]; simp only []; rw [if_neg hmy, if_neg hmx, ← he, hjx, hjy]; rfl
+    set X := mx * 2 ^ jx with hX
+    set Y := my * 2 ^ jy with hY
+    have hYpos : 0 < Y := Nat.mul_pos (Nat.pos_of_ne_zero hmy) (Nat.two_pow_pos jy)
+    have he1 : -1074 ≤ e := by omega
+    -- |a| = X 2^e, |b| = Y 2^e
+    have hax : (mx : ℚ) * 2 ^ ex = (X : ℚ) * 2 ^ e := by
+      have : ex = (jx : ℤ) + e := by omega
+      rw [hX, this, ← zpow2_add, zpow_natCast]; push_cast; ring
+    have hby : (my : ℚ) * 2 ^ ey = (Y : ℚ) * 2 ^ e := by
+      have : ey = (jy : ℤ) + e := by omega
+      rw [hY, this, ← zpow2_add, zpow_natCast]; push_cast; ring
+    -- the remainder is below 2^53
+    have hr53 : X % Y < 9007199254740992 := by
+      rcases le_total ex ey with h | h
+      · have : jx = 0 := by have : e = ex := by omega
+                            omega
+        have hXm : X = mx := by rw [hX, this]; simp
+        exact lt_of_le_of_lt (Nat.mod_le _ _) (by rw [hXm]; exact hmx53)
+      · have : jy = 0 := by have : e = ey := by omega
+                            omega
+        have hYm : Y = my := by rw [hY, this]; simp
+        exact lt_trans (Nat.mod_lt _ hYpos) (by rw [hYm]; exact hmy53)
+    obtain ⟨dv, dp⟩ := dy_value (X % Y) e
+    have hrq : rneQ (sgnQ nx * (((X % Y : Nat) : ℚ) * 2 ^ e)) = sgnQ nx * (((X % Y : Nat) : ℚ) * 2 ^ e) ∧
+        |sgnQ nx * (((X % Y : Nat) : ℚ) * 2 ^ e)| < 2 ^ (1024 : ℤ) := by
+      by_cases hz : X % Y = 0
+      · rw [hz]; simp only [Nat.cast_zero, zero_mul, mul_zero, abs_zero]; exact ⟨rneQ_zero, two_zpow_pos _⟩
+      · have hfix := rneQ_fixes_pos (X % Y) e (Nat.pos_of_ne_zero hz) hr53 he1
+        have hpos : (0 : ℚ) < ((X % Y : Nat) : ℚ) * 2 ^ e :=
+          mul_pos (by exact_mod_cast Nat.pos_of_ne_zero hz) (two_zpow_pos e)
+        have hbig : ((X % Y : Nat) : ℚ) * 2 ^ e < 2 ^ (1024 : ℤ) := by
+          have hlt : ((X % Y : Nat) : ℚ) < 2 ^ (53 : ℤ) := by
+            have : ((X % Y : Nat) : ℚ) < ((9007199254740992 : Nat) : ℚ) := by exact_mod_cast hr53
+            norm_num at this ⊢; exact this
+          have hele : e ≤ 971 := by
+            have := (decode_fin_bounds a nx mx ex ha).2.2; omega
+          calc ((X % Y : Nat) : ℚ) * 2 ^ e < 2 ^ (53 : ℤ) * 2 ^ e := mul_lt_mul_of_pos_right hlt (two_zpow_pos e)
+            _ = 2 ^ ((53 : ℤ) + e) := zpow2_add _ _
+            _ ≤ 2 ^ (1024 : ℤ) := zpow2_mono (by omega)
+        cases nx with
+        | false => simp only [sgnQ, Bool.false_eq_true, if_false, one_mul]; exact ⟨hfix, by rw [abs_of_pos hpos]; exact hbig⟩
+        | true =>
+          simp only [sgnQ, if_true, neg_one_mul]
+          exact ⟨by rw [rneQ_neg_of_pos _ hpos, hfix], by rw [abs_neg, abs_of_pos hpos]; exact hbig⟩
+    have hx : sgnQ nx * (((X % Y : Nat) : ℚ) * 2 ^ e) = sgnQ nx * (((dyNum (X % Y) e : Nat) : ℚ) / ((dyDen e : Nat) : ℚ)) := by rw [dv]
+    obtain ⟨r1, _⟩ := roundSigned_valQ nx (dyNum (X % Y) e) (dyDen e) dp _ hx
+    obtain ⟨f1, f2⟩ := r1 (by rw [hrq.1]; exact hrq.2)
+    rw [hf]
+    refine ⟨f1, ?_⟩
+    rw [f2, hrq.1, hva, hvb, hax, hby]
+    have hdiv : sgnQ nx * ((X : ℚ) * 2 ^ e) / (sgnQ ny * ((Y : ℚ) * 2 ^ e)) = sgnQ nx * (X : ℚ) / (sgnQ ny * (Y : ℚ)) := by
+      have h2 : (2 : ℚ) ^ e ≠ 0 := (two_zpow_pos e).ne'
+      have hs : sgnQ ny ≠ 0 := by cases ny <;> simp [sgnQ]
+      have hYq : (Y : ℚ) ≠ 0 := by exact_mod_cast hYpos.ne'
+      field_simp
+    rw [hdiv, truncQ_signed nx ny X Y hYpos]
+    have hmod : ((X % Y : Nat) : ℚ) = (X : ℚ) - (Y : ℚ) * ((X / Y : Nat) : ℚ) := by
+      have := Nat.div_add_mod X Y
+      have hq : (X : ℚ) = (Y : ℚ) * ((X / Y : Nat) : ℚ) + ((X % Y : Nat) : ℚ) := by exact_mod_cast this.symm
+      linarith
+    rw [hmod]
+    generalize (X / Y) = q
+    cases nx <;> cases ny <;> simp [sgnQ] <;> ring
+
 end JanetModel.Int64.Ieee
